@@ -217,7 +217,13 @@ fn ristretto_leg(ctx: &Ctx, rep: &mut Report) {
             }
             let d = json!({"bits": n, "capacity": cap, "ext": ext});
             let mut rng = ctx.rng("c11-ris", id as u64);
-            let prm = RangeParameters::init(n, cap, <RistrettoPoint as Gx>::pedersen(ext)).expect("params");
+            let prm = match RangeParameters::init(n, cap, <RistrettoPoint as Gx>::pedersen(ext)) {
+                Ok(p) => p,
+                Err(e) => {
+                    rep.violation("C11 parameters-refused", &format!("RangeParameters::init(bits {n}, capacity {cap}) is refused ({e}): no generators for a documented-valid parameter set"), rp(ctx, id, "ris", d.clone()));
+                    continue;
+                },
+            };
             let gv: Vec<RistrettoPoint> = prm.gi_base_iter().cloned().collect();
             let hv: Vec<RistrettoPoint> = prm.hi_base_iter().cloned().collect();
             rep.eval(&("vector", n, cap, ext));
@@ -264,6 +270,19 @@ fn ristretto_leg(ctx: &Ctx, rep: &mut Report) {
                 let other = RangeParameters::init(n, if cap > 1 { cap / 2 } else { 2 }, <RistrettoPoint as Gx>::pedersen(ext)).expect("params");
                 if let Some(msg) = copies_agree(&prm, &other, &gv, &hv, &mut rng, rep) {
                     rep.violation("C11 copy-differs", &msg, rp(ctx, id, "ris", d.clone()));
+                }
+            }
+            // the Debug rendering is a public read-out of the vector generators too: G and H must both appear, in that order
+            if n * cap <= 64 {
+                let text = format!("{prm:?}");
+                let g0 = format!("{:?}", gv[0]);
+                let h0 = format!("{:?}", hv[0]);
+                let hl = format!("{:?}", hv[hv.len() - 1]);
+                rep.count("debug_renderings_checked", 1);
+                let gi = text.find(&g0);
+                let hi = text.find(&h0);
+                if gi.is_none() || hi.is_none() || !text.contains(&hl) || (gv[0] != hv[0] && text.matches(&g0).count() != 1) {
+                    rep.violation("C11 debug-rendering", "the Debug rendering of the parameters does not show the G and H vector generators the accessors return (one of them missing or shown twice)", rp(ctx, id, "ris", d.clone()));
                 }
             }
             // accessors for compressed forms
@@ -321,8 +340,15 @@ fn fm_leg(ctx: &Ctx, rep: &mut Report) {
             let mut rng = ctx.rng("c11-fm", id as u64);
             let pc = <FmPoint as Gx>::pedersen(ext);
             fm::arm();
-            let prm = RangeParameters::init(n, cap, pc).expect("params");
+            let prm = RangeParameters::init(n, cap, pc);
             let log = fm::take();
+            let prm = match prm {
+                Ok(p) => p,
+                Err(e) => {
+                    rep.violation("C11 parameters-refused", &format!("RangeParameters::init(bits {n}, capacity {cap}) is refused ({e}): no generators for a documented-valid parameter set"), rp(ctx, id, "fm", d.clone()));
+                    continue;
+                },
+            };
             rep.eval(&("fm", n, cap, ext));
             rep.count("fm_constructions_observed", 1);
             // expected hash-to-group inputs: per party, the G chain then the H chain, 64-byte SHAKE blocks
